@@ -6,7 +6,11 @@ package main
 //
 //	base=<hex> hdr=<nil|-|Khex~vhex,vhex+…> ctor=<Get|Delete|PostJSONBody|…|Do|DoBody|DoMP> m=<hex> ct=<hex> tmpl=<hex>: op ; op ; …
 //	ops:  call <params> <body>       params: nil | - | khex=s<vhex>,khex=i<int>    body: nil | j<ahex>:<n> | f- | f<khex>=<vhex>,…
-//	      eval <io index> <fault> <resp>     fault: none|ser|tx|read|dec|dect      resp: ok<vhex>:<k> | bad
+//	                                 (further value kinds: l<int> int64, b<0|1> bool, t<vhex> defined string type, g<vhex> fmt.Stringer)
+//	      eval <io index> <fault> <resp>     fault: none|ser|tx[kind]|read|readmid|dec|dect
+//	                                          resp: <body>[@<status>], body = ok<vhex>:<k> | big<k> | empty | ws | null | obj0 | garbage | arr | bad
+//	                                          (<status> = HTTP status of the stub's response, 200 if absent; the property decodes
+//	                                          the body whatever the status is)
 //	      mut (add a header to the request that was sent last) | dh (print DefaultHeader) | sent (transport calls so far)
 //
 // The API talks to a stub http.RoundTripper (no network) that records method, URL, headers and body and injects
@@ -87,6 +91,12 @@ var (
 	c17ErrRead = errors.New("injected body read failure")
 	c17ErrDec  = errors.New("injected decoder failure")
 )
+
+type c17Str string
+
+type c17Stringer struct{ s string }
+
+func (x c17Stringer) String() string { return x.s }
 
 type c17FailReader struct{}
 
@@ -227,7 +237,7 @@ func (s *c17Stub) RoundTrip(r *http.Request) (*http.Response, error) {
 	case strings.HasPrefix(spec, "ok"):
 		parts := strings.SplitN(spec[2:], ":", 2)
 		k := 0
-		if len(parts) == 2 {
+		if len(parts) >= 2 {
 			k, _ = strconv.Atoi(parts[1])
 		}
 		data, _ = json.Marshal(c17Target{V: unhx(parts[0]), K: k})
@@ -304,10 +314,22 @@ func c17ParseParams(s string) network.PathParam {
 		if len(kv) != 2 || kv[1] == "" {
 			continue
 		}
-		if kv[1][0] == 'i' {
+		// the property says "replaced by its value" for any printable value: besides string and int, an int64, a bool, a
+		// defined string type and a fmt.Stringer (all printed by %v as the model prints them)
+		switch kv[1][0] {
+		case 'i':
 			n, _ := strconv.Atoi(kv[1][1:])
 			p[unhx(kv[0])] = n
-		} else {
+		case 'l':
+			n, _ := strconv.ParseInt(kv[1][1:], 10, 64)
+			p[unhx(kv[0])] = n
+		case 'b':
+			p[unhx(kv[0])] = kv[1][1:] == "1"
+		case 't':
+			p[unhx(kv[0])] = c17Str(unhx(kv[1][1:]))
+		case 'g':
+			p[unhx(kv[0])] = c17Stringer{unhx(kv[1][1:])}
+		default:
 			p[unhx(kv[0])] = unhx(kv[1][1:])
 		}
 	}
@@ -557,9 +579,18 @@ func c17GenParams(rng *rand.Rand, tmplKeys []string) string {
 	rng.Shuffle(len(order), func(i, j int) { order[i], order[j] = order[j], order[i] })
 	parts := make([]string, len(order))
 	for i, k := range order {
-		if rng.Intn(5) == 0 {
+		switch r := rng.Intn(20); {
+		case r < 4:
 			parts[i] = hx(k) + "=i" + strconv.Itoa(rng.Intn(2000)-500)
-		} else {
+		case r == 4:
+			parts[i] = hx(k) + "=l" + strconv.Itoa(rng.Intn(2000)-500)
+		case r == 5:
+			parts[i] = hx(k) + "=b" + strconv.Itoa(rng.Intn(2))
+		case r == 6:
+			parts[i] = hx(k) + "=t" + hx(c17Vals[rng.Intn(len(c17Vals))])
+		case r == 7:
+			parts[i] = hx(k) + "=g" + hx(c17Vals[rng.Intn(len(c17Vals))])
+		default:
 			parts[i] = hx(k) + "=s" + hx(c17Vals[rng.Intn(len(c17Vals))])
 		}
 	}
@@ -624,6 +655,17 @@ func c17Gen(tier string, rng *rand.Rand, emit func(string)) map[string]interface
 	stats := map[string]int{}
 	count := func(k string) { stats[k]++ }
 	// 1. bounded-exhaustive: every constructor x every fault x 0/1/2 evaluations x header variants, fixed 2-placeholder template
+	for _, ctor := range c17Ctors {
+		for _, f := range []string{"none", "dec", "dect"} {
+			for _, st := range []string{"", "@204", "@200", "@500"} {
+				body := "nil"
+				if c17Kind(ctor) == 1 {
+					body = "j" + hx("a") + ":1"
+				}
+				emit(c17Head(c17Bases[0], "nil", ctor, c17Methods[0], c17CTypes[0], "e/{id}") + "call " + hx("id") + "=i1 " + body + " ; eval 0 " + f + " empty" + st + " ; sent ; eval 0 none ok" + hx("v") + ":2 ; sent")
+			}
+		}
+	}
 	exhaustive := 0
 	for _, ctor := range c17Ctors {
 		for _, f := range c17Faults {
@@ -643,7 +685,11 @@ func c17Gen(tier string, rng *rand.Rand, emit func(string)) map[string]interface
 						m := c17Methods[(hi+evals)%8]
 						ops := []string{"sent", "call " + hx("id") + "=i7," + hx("name") + "=s" + hx("id") + " " + body, "sent"}
 						for e := 0; e < evals; e++ {
-							ops = append(ops, "eval 0 "+f+" ok"+hx("r")+":"+strconv.Itoa(e), "sent")
+							st := ""
+							if (hi+e)%2 == 1 {
+								st = c17Statuses[(exhaustive+e)%len(c17Statuses)]
+							}
+							ops = append(ops, "eval 0 "+f+" ok"+hx("r")+":"+strconv.Itoa(e)+st, "sent")
 						}
 						ops = append(ops, "mut", "dh")
 						emit(c17Head(c17Bases[hi%len(c17Bases)], hdr, ctor, m, c17CTypes[hi%len(c17CTypes)], "users/{id}/n/{name}") + strings.Join(ops, " ; "))
